@@ -797,7 +797,10 @@ pub fn c19(tier: Tier) -> i32 {
                                     let back2: RecordSet = ciborium::de::from_reader(&cb[..]).unwrap();
                                     let pf = crate::posfmt::to_vec(&set).unwrap();
                                     let back3: RecordSet = crate::posfmt::from_slice(&pf).unwrap();
-                                    for (name, b) in [("JSON", &back), ("CBOR", &back2), ("positional", &back3)] {
+                                    // a self-describing format that does NOT keep the fields in declaration order
+                                    // (serde_json::Value sorts the keys of a map)
+                                    let back4: RecordSet = serde_json::from_value(serde_json::to_value(&set).unwrap()).unwrap();
+                                    for (name, b) in [("JSON", &back), ("CBOR", &back2), ("positional", &back3), ("JSON value with sorted keys", &back4)] {
                                         let a: Vec<OwnedRecord> = set.into_iter().map(|r| r.to_owned_record()).collect();
                                         let bb: Vec<OwnedRecord> = b.into_iter().map(|r| r.to_owned_record()).collect();
                                         if a != bb || b.len() != set.len() {
@@ -850,7 +853,10 @@ pub fn c19(tier: Tier) -> i32 {
                                     let back2: RecordSet = ciborium::de::from_reader(&cb[..]).unwrap();
                                     let pf = crate::posfmt::to_vec(&set).unwrap();
                                     let back3: RecordSet = crate::posfmt::from_slice(&pf).unwrap();
-                                    for (name, b) in [("JSON", &back), ("CBOR", &back2), ("positional", &back3)] {
+                                    // a self-describing format that does NOT keep the fields in declaration order
+                                    // (serde_json::Value sorts the keys of a map)
+                                    let back4: RecordSet = serde_json::from_value(serde_json::to_value(&set).unwrap()).unwrap();
+                                    for (name, b) in [("JSON", &back), ("CBOR", &back2), ("positional", &back3), ("JSON value with sorted keys", &back4)] {
                                         let a: Vec<OwnedRecord> = set.into_iter().map(|r| r.to_owned_record()).collect();
                                         let bb: Vec<OwnedRecord> = b.into_iter().map(|r| r.to_owned_record()).collect();
                                         if a != bb || b.len() != set.len() {
@@ -913,7 +919,7 @@ pub fn c19(tier: Tier) -> i32 {
         Report {
             property: "C19".into(),
             tier: tier.name().into(),
-            rule: "every input of the class-string / structured / record-shape families (two instantiations of the data class: ASCII and arbitrary bytes incl. 0x00, 0xFF, quote, backslash) x every capacity: one record set reused for all batches (so later, smaller batches carry stale offsets beyond len(); counted), after every batch the set and every owned record are serialised with serde_json, ciborium (CBOR) and a positional (bincode-like, non-self-describing) format, deserialised and compared; plus owned records CONSTRUCTED from every combination of 7 field values (empty, unequal lengths, marker bytes, line terminators, non-UTF-8, all 256 byte values) (owned records by ==, sets by iterating both: count, all fields, sequence lines); non-trivial = run with at least one record".into(),
+            rule: "every input of the class-string / structured / record-shape families (two instantiations of the data class: ASCII and arbitrary bytes incl. 0x00, 0xFF, quote, backslash) x every capacity: one record set reused for all batches (so later, smaller batches carry stale offsets beyond len(); counted), after every batch the set and every owned record are serialised with serde_json (text, and through serde_json::Value whose maps sort their keys), ciborium (CBOR) and a positional (bincode-like, non-self-describing) format, deserialised and compared; plus owned records CONSTRUCTED from every combination of 7 field values (empty, unequal lengths, marker bytes, line terminators, non-UTF-8, all 256 byte values) (owned records by ==, sets by iterating both: count, all fields, sequence lines); non-trivial = run with at least one record".into(),
             exhaustive: true,
             assumptions: crate::c_inputs::std_assumptions(),
             extra: json!({"states_note": "states = non-trivial executions; transitions = serialisation round trips"}),
